@@ -69,6 +69,63 @@ def handle (d : DSt) (j : Json) : R (DSt × Json) := do
     let es ← listF asBytes j "names"
     return (d, jObj [("model", jObj [("kind", "pids"), ("l", jList jNat (pidsOfEntries es))]),
                      ("spec", Json.null)])
+  -- the values as_dict stores, given what each getter does on its own
+  if op == "as_dict" then
+    let explicit ← boolF j "explicit"
+    let parseOne : Json → R (String × GetRes) := fun x => do
+      let nm ← strF x "name"
+      let r ← strF x "res"
+      let g : GetRes ← (
+        if r == "val" then pure GetRes.val else if r == "ad" then pure GetRes.accessDenied
+        else if r == "zombie" then pure GetRes.zombie else if r == "nsp" then pure GetRes.nsp
+        else if r == "notimpl" then pure GetRes.notImpl else .error s!"unknown getter outcome {r}")
+      pure (nm, g)
+    let outs ← listF parseOne j "outs"
+    let res : Json := match asDictVals explicit outs [] with
+      | .dict items => jObj [("kind", "dict"), ("items", jList (fun (x : String × Bool) => Json.arr #[Json.str x.1, Json.bool x.2]) items)]
+      | .nsp => jObj [("kind", "exc"), ("exc", "NoSuchProcess")]
+      | .notImpl => jObj [("kind", "exc"), ("exc", "NotImplementedError")]
+    return (d, jObj [("model", res), ("spec", Json.null)])
+  -- two threads in the drain loop of the prologue: the schedule observed on the real threads
+  if op == "drain_race" then
+    let set ← listF asNat j "set"
+    let sched ← listF asBool j "sched"
+    let pcName : DPc → String := fun
+      | .test => "test" | .pop => "pop" | .done => "done" | .keyError => "KeyError"
+    let (rest, a, b) := drainRun cfg.popGuarded set DTh.start DTh.start sched
+    return (d, jObj [("model", jObj [("a", Json.str (pcName a.pc)), ("b", Json.str (pcName b.pc)),
+                                      ("a_removed", jList jNat a.removed), ("b_removed", jList jNat b.removed),
+                                      ("left", jList jNat rest)]),
+                     ("spec", Json.null)])
+  -- the platform functions called on their own (no `Op`: they are not part of the history machine)
+  if op == "posix_pid_exists" then
+    let n ← natF j "n"
+    let o := posixPidExists d.m.k n
+    return (⟨d.m, d.s, d.mouts ++ [o], d.souts ++ [none]⟩, jObj [("model", jOut o), ("spec", Json.null)])
+  if op == "linux_pid_exists" then
+    let n ← natF j "n"
+    let mid ← listF parseKEv j "mid"
+    let (k', o) := linuxPidExists d.m.k n mid
+    -- the statement's promise (True exactly for listed PIDs) when nothing changes inside the call
+    let sp : Json := if mid.isEmpty && decide (n ≤ pidTMax) then jOut (.bool ((Spec.listed d.s.k).contains n)) else Json.null
+    return (⟨{ d.m with k := k' }, { d.s with k := d.s.k.applyAll mid }, d.mouts ++ [o], d.souts ++ [none]⟩,
+            jObj [("model", jOut o), ("spec", sp)])
+  if op == "pid_exists_arg" then
+    let t ← strF j "t"
+    let a : PyNum ← (
+      if t == "bool" then do pure (PyNum.bool (← boolF j "v"))
+      else if t == "float_neg" then pure PyNum.floatNeg
+      else if t == "float_zero" then pure PyNum.floatZero
+      else if t == "float_other" then pure PyNum.floatOther
+      else .error s!"unknown argument kind {t}")
+    let (m', mout) := pidExistsArg cfg d.m a
+    -- the statement speaks about ints: a bool is one (0 / 1), a float is not (no promise)
+    let (s', sout) : Spec.SSt × Option Out :=
+      match a with
+      | .bool b => Spec.sstep cfg.validNames cfg.noAccessAttrs d.s (.pidExists (if b then 1 else 0))
+      | _ => (d.s, none)
+    return (⟨m', s', d.mouts ++ [mout], d.souts ++ [sout]⟩,
+            jObj [("model", jOut mout), ("spec", jOpt jOut sout)])
   let (mo, so) : Op × Op ← (
     if op == "kev" then do let e ← field j "ev" >>= parseKEv; pure (Op.kev e, Op.kev e)
     else if op == "pids" then pure (Op.pids, Op.pids)
